@@ -230,6 +230,25 @@ def kind_of_meta(m):
     return [2]
 
 
+def pmeta_sx(m):
+    """pandas-metadata block -> the s-expression Cmd_Partition.as_pmeta_f reads: (pandas_type numpy_type (labels-block)?)"""
+    labels = (m.get("metadata") or {}).get("labels") if m.get("pandas_type") == "categorical" else None
+    return [enc(str(m.get("pandas_type"))), enc(str(m.get("numpy_type"))), [pmeta_sx(labels)] if labels else []]
+
+
+def kind_sx_norm(k):
+    """kind as printed by pqref (booleans as 0/1) -> the harness notation"""
+    if not isinstance(k, list):
+        return k
+    if k and k[0] == 0:
+        return [0, bool(k[1]), k[2]]
+    if k and k[0] in (3, 4):
+        return [k[0], bool(k[1])]
+    if k and k[0] == 5 and len(k) > 1:
+        return [5, kind_sx_norm(k[1])]
+    return k
+
+
 def kind_of_dtype(dt):
     """dtype of a frame column -> (model kind, value-kind letter the read must yield)"""
     if isinstance(dt, pd.CategoricalDtype):
@@ -472,14 +491,34 @@ def coqchk_props(ctx, pid):
 # ----------------------------------------------------------------------------- translator paths2coq (C08, C14)
 PATHS_FUNCS = ["util.analyse_paths", "util._strip_path_tail", "util.path_string", "util._val_to_num",
                "writer.partition_on_columns (directory naming)", "api.paths_to_cats", "api._path_to_cats",
-               "util.val_from_meta (bool literals)", "util.metadata_from_many (fast-path relative path)"]
+               "util.val_from_meta (bool literals, dispatch)", "util.metadata_from_many (fast-path relative path)",
+               "core.read_row_group (partition-column fill)"]
+
+
+def filter_proof_blocks(text, ok_units):
+    """coq/genproofs/GenPathsProofs.v is cut into blocks by lines `(* @needs u1 u2 *)`; keep the blocks whose units were all
+    translated.  -> (text, names of the theorems kept, names of the theorems left out)"""
+    import re
+    keep, kept, dropped = True, [], []
+    out = []
+    for line in text.split("\n"):
+        m = re.match(r"^\(\* @needs(.*)\*\)\s*$", line)
+        if m:
+            keep = all(u in ok_units for u in m.group(1).split())
+            continue
+        t = re.match(r"^\s*(?:Theorem|Lemma|Example|Corollary)\s+([A-Za-z0-9_']+)", line)
+        if t:
+            (kept if keep else dropped).append(t.group(1))
+        if keep:
+            out.append(line)
+    return "\n".join(out), kept, dropped
 
 
 def paths_translator(ctx):
-    """translators/paths2coq.py: regenerate Gen/GenPaths.v from util.py / writer.py of the working tree and re-prove
-    coq/genproofs/GenPathsProofs.v on it.  Fail closed: outside the fragment -> False (`translator_fallback`; the hand models
-    Impl/Partition.v, Impl/Paths.v + their correspondences carry the tie alone).  -> True when the regenerated text is in use"""
-    import shutil
+    """translators/paths2coq.py: regenerate Gen/GenPaths.v from util.py / writer.py / api.py of the working tree and re-prove
+    coq/genproofs/GenPathsProofs.v on it.  Fail closed PER FUNCTION: a function outside the fragment is left to its hand model +
+    correspondence (recorded under `translator_fallback` with the reason) and only the proof blocks that need it are left out.
+    -> the set of units whose regenerated text is in use"""
     import sys
     from harness import common as C
     sys.path.insert(0, os.path.join(C.VERIF, "translators"))
@@ -487,22 +526,32 @@ def paths_translator(ctx):
     for f in os.listdir(ctx.gen_dir):
         if f.startswith("GenPaths"):
             os.unlink(os.path.join(ctx.gen_dir, f))
+    rp = os.path.join(C.REPO, "fastparquet")
     try:
-        text = paths2coq.translate(os.path.join(C.REPO, "fastparquet", "util.py"), os.path.join(C.REPO, "fastparquet", "writer.py"))
+        text, ok_units, failed = paths2coq.translate_units(os.path.join(rp, "util.py"), os.path.join(rp, "writer.py"), os.path.join(rp, "api.py"),
+                                                            os.path.join(rp, "core.py"))
         gen = os.path.join(ctx.gen_dir, "GenPaths.v")
         open(gen, "w").write(text)
         ok, out = C.coqc(gen, extra_q=[(ctx.gen_dir, "PqGen")])
         if not ok:
             raise paths2coq.Unsupported("generated text does not type-check: " + out[-600:])
-    except paths2coq.Unsupported as e:
+    except (paths2coq.Unsupported, SyntaxError, OSError) as e:
         ctx.extra["translator"] = {"status": "translator_fallback", "translator": "paths2coq", "reason": str(e)[:500]}
-        ctx.notes.append("translator_fallback (paths2coq): " + str(e)[:300])
-        return False
+        ctx.notes.append("translator_fallback (paths2coq, all units): " + str(e)[:300])
+        return set()
     proofs = os.path.join(ctx.gen_dir, "GenPathsProofs.v")
-    shutil.copy(os.path.join(C.COQ, "genproofs", "GenPathsProofs.v"), proofs)
-    ctx.coq_file(proofs, extra_q=[(ctx.gen_dir, "PqGen")], obligations=["gen:" + n for n in C.theorem_names(proofs)])
-    ctx.extra["translator"] = {"status": "ok", "translator": "paths2coq", "functions": PATHS_FUNCS, "lines": text.count("\n")}
-    return True
+    ptext, kept, dropped = filter_proof_blocks(open(os.path.join(C.COQ, "genproofs", "GenPathsProofs.v")).read(), ok_units)
+    open(proofs, "w").write(ptext)
+    ctx.coq_file(proofs, extra_q=[(ctx.gen_dir, "PqGen")], obligations=["gen:" + n for n in kept])
+    ctx.extra["translator"] = {"status": "ok" if not failed else "translator_fallback", "translator": "paths2coq", "units": ok_units,
+                               "functions": PATHS_FUNCS, "lines": text.count("\n")}
+    if failed:
+        ctx.extra["translator"]["failed_closed"] = {u: r[:300] for u, r in failed.items()}
+        ctx.extra["translator"]["obligations_left_out"] = dropped
+        ctx.extra["translator"]["reason"] = "; ".join("%s: %s" % (u, r[:160]) for u, r in failed.items())
+        ctx.notes.append("translator_fallback (paths2coq, units %s): hand model + correspondence for them; %d regenerated obligations still checked"
+                         % (", ".join(failed), len(kept)))
+    return set(ok_units)
 
 
 def coq_str(s):
